@@ -9,13 +9,13 @@ import traceback
 from . import impl
 
 APIS = ["prep", "prep_neg", "readout", "compress", "mub_circuits", "mubs", "mub_info", "fst", "smc", "conn_graph", "classify", "class_graph",
-        "expand", "to_list", "decompress", "fit_full", "fit_sub", "fit_dm"]
+        "expand", "to_list", "decompress", "fit_full", "fit_sub", "fit_dm", "mubs_float", "prep_strenum"]
 FILE_KIND = {"prep": "stab", "prep_neg": "stab", "readout": "stab", "compress": "stab", "smc": "stab",
-             "expand": "none", "to_list": "none", "decompress": "none", "fit_full": "mub", "fit_sub": "mub", "fit_dm": "mub",
+             "expand": "none", "to_list": "none", "decompress": "none", "fit_full": "mub", "fit_sub": "mub", "fit_dm": "mub", "mubs_float": "none", "prep_strenum": "none",
              "mub_circuits": "mub", "mubs": "mub", "mub_info": "mub", "fst": "mub",
              "conn_graph": "none", "classify": "none", "class_graph": "none"}
 READS = {"prep": ["infos"], "prep_neg": ["infos"], "readout": ["infos"], "compress": ["infos"], "smc": ["infos"],
-         "expand": [], "to_list": [], "decompress": [], "fit_full": ["circuits"], "fit_sub": ["circuits"], "fit_dm": ["circuits"],
+         "expand": [], "to_list": [], "decompress": [], "fit_full": ["circuits"], "fit_sub": ["circuits"], "fit_dm": ["circuits"], "mubs_float": [], "prep_strenum": [],
          "mub_circuits": ["circuits"], "fst": ["circuits"], "mubs": ["mubs"], "mub_info": ["header"],
          "conn_graph": [], "classify": [], "class_graph": []}
 LOOKUP_APIS = ["lookup_stab", "lookup_mub"]      # circuit_lookup plumbing, thorough tier only
@@ -197,6 +197,12 @@ def make_args(api, cfg, L, held_args=None):
         return [qc, conn]
     if api in ("expand", "to_list"):
         return [st]
+    if api == "mubs_float":          # arguments that are EQUAL to ordinary ones (4.0 == 4) but not identical: whatever a fresh interpreter answers is the answer
+        return [float(n), conn]
+    if api == "prep_strenum":
+        import enum
+        E = enum.Enum("Connectivity", {"C": conn}, type=str)
+        return [st, E.C]
     if api in ("fit_full", "fit_sub", "fit_dm"):
         # ONE fitter object per configuration, kept by the caller for the whole history: subset tomography of the last n qubits (in reversed order) of an
         # (n+1)-qubit register, evaluated on a fixed count dictionary per circuit
@@ -241,6 +247,10 @@ def edit_args_inplace(held_args, n):
 
 def call_api(api, args, L):
     if api in ("prep", "prep_neg"):
+        return L.stabilizer_circuits.get_preparation_circuit(*args)
+    if api == "mubs_float":
+        return L.mub_circuits.get_mubs(*args)
+    if api == "prep_strenum":
         return L.stabilizer_circuits.get_preparation_circuit(*args)
     if api == "expand":
         return args[0].expand()
